@@ -34,7 +34,15 @@ RULE = ('strata: X = exhaustive layering of 2 names over 5 layer slots (register
         'look-alike + the 112 rows without explicit argument with only the look-alikes of what the configuration directory lacks) are also '
         'run with the process working directory set to a decoy directory holding files and directories of the same relative names with '
         'other contents: relative names are looked up in the configuration directories '
-        'only, what is missing there is skipped.')
+        'only, what is missing there is skipped. '
+        'I = layerings whose directories hold many ignored entries: per configured directory zero to four dot-files whose names are '
+        'neighbours in the sorted listing (.a.yaml.swp .b.yaml.swp ..yaml .#x.yaml .x.yaml~ ..., also the dot-twin .a.yaml of a regular '
+        'a.yaml; the count in the first / a middle / the last directory is enumerated 0-4, the rest drawn), regular names that sort '
+        'before the dot (-a.yaml #b.yaml), and zero to three sub-directories (plain, dot-named, named like a policy file, nested, empty; '
+        'neighbours in sorted order) that contain files; every ignored file defines EVERY name (also the never-defined one) with a role '
+        'of its own (a few hold no policy text at all: empty or editor swap bytes), is created in shuffled order with the regular files, '
+        'and no ignored role may ever pass; part of these configurations then go through a history in which dot-files also appear and '
+        'disappear (an editor opening / closing a file) between the loads.')
 ASSUMPTIONS = ['lexicographic order = Python sorted() of the file names (code-point order)',
                'oslo_policy.opts._options is swapped for a pristine deep copy around cases that call set_defaults',
                'single-role credentials distinguish the layers because each layer uses its own role']
@@ -48,12 +56,18 @@ MIN = {'evaluations': 600, 'decisions': 5000, 'allow_decisions': 300, 'file_sele
        'reload_histories': 300, 'history_steps': 700, 'history_steps_two_operations': 200,
        'history_steps_main_resaved_identical': 60, 'history_steps_names_dropped_or_file_deleted': 150,
        'history_decisions': 5000, 'cwd_decoy_layerings': 100, 'cwd_decoy_relative_layerings': 80,
-       'cwd_decoy_name_missing_in_config_dir': 80, 'file_selection_rows_cwd_decoy': 672}
+       'cwd_decoy_name_missing_in_config_dir': 80, 'file_selection_rows_cwd_decoy': 672,
+       'ignored_entry_layerings': 160, 'ignored_entry_decisions': 4000, 'layerings_two_or_more_dot_files_in_one_directory': 100,
+       'layerings_three_or_more_dot_files_in_one_directory': 60, 'layerings_adjacent_dot_files_in_first_directory': 40,
+       'layerings_adjacent_dot_files_in_middle_directory': 40, 'layerings_adjacent_dot_files_in_last_directory': 40,
+       'layerings_dot_file_beside_same_named_regular_file': 50, 'layerings_several_subdirectories_in_one_directory': 60,
+       'layerings_dot_named_subdirectory_with_files': 60, 'histories_with_dot_file_appearing_or_disappearing': 25}
 ANCHORS = ['oslo_policy.policy:Enforcer.load_rules', 'oslo_policy.policy:Enforcer._walk_through_policy_directory',
            'oslo_policy.policy:pick_default_policy_file', 'oslo_policy.policy:parse_file_contents',
            'oslo_policy.policy:Enforcer.enforce']
 REQUIRED_ANCHORS = ['oslo_policy.policy:Enforcer.enforce', 'oslo_policy.policy:Enforcer.load_rules']
 N = {'quick': 1500, 'thorough': 60000}
+N_IGNORED = {'quick': 320, 'thorough': 12000}
 
 FILESETS = {'d1': ['B.yaml', 'a.yaml', 'a10.json', 'a2.yaml', '.hidden.yaml'], 'd2': ['z.json', 'Z.yaml'], 'd3': ['m.yaml']}
 DIRS = ['d1', 'd2', 'dmissing', 'd3']
@@ -134,9 +148,64 @@ def _drop_decoys():
     _DECOYS.clear()
 
 
+SWAP_BYTES = 'b0VIM 8.2\x00\x00\x00\x00\x10\x00\x00root\x00\x00\x00\x00\x00\x00\x00\x00\x00\x00\x00U3210#"! \x13\x12'
+
+
+def write_ignored(tree, names, e):
+    """One entry the directory walk has to ignore (a dot-file, or anything below a sub-directory of a configured directory):
+    e = {path, role, fmt, content}; content 'policy' = defines EVERY name as role:<role>, 'empty' / 'swap' = no policy text,
+    'dir' = an empty sub-directory.  Directories are made level by level so that each one carries a logical mtime."""
+    parts = e['path'].split('/')
+    upto = len(parts) if e['content'] == 'dir' else len(parts) - 1
+    for k in range(2, upto + 1):
+        sub = '/'.join(parts[:k])
+        if not os.path.isdir(tree.path(sub)):
+            tree.mkdir(sub)
+    if e['content'] == 'policy':
+        tree.write(e['path'], {n: 'role:' + e['role'] for n in names}, e['fmt'])
+    elif e['content'] == 'empty':
+        tree.write_text(e['path'], '')
+    elif e['content'] == 'swap':
+        tree.write_text(e['path'], SWAP_BYTES)
+
+
+def count_ignored(ctx, case):
+    """Coverage counters of stratum I, computed from the configuration that is about to run."""
+    ign = case['ignored']
+    regular = {l[1] for l in case['layers'] if l[1]}
+    real = [d for d in case['dirs'] if d != 'dmissing']
+    dots, subs, dotsubs, twin = {}, {}, set(), False
+    for e in ign:
+        parts = e['path'].split('/')
+        if len(parts) == 2 and e['content'] != 'dir':
+            dots[parts[0]] = dots.get(parts[0], 0) + 1
+            twin = twin or (parts[0] + '/' + parts[1][1:]) in regular
+        else:
+            subs.setdefault(parts[0], set()).add(parts[1])
+            if parts[1].startswith('.') and e['content'] != 'dir':
+                dotsubs.add(parts[0] + '/' + parts[1])
+    ctx.count('ignored_entry_layerings')
+    if any(v >= 2 for v in dots.values()):
+        ctx.count('layerings_two_or_more_dot_files_in_one_directory')
+    if any(v >= 3 for v in dots.values()):
+        ctx.count('layerings_three_or_more_dot_files_in_one_directory')
+    for pos, d in enumerate(real):
+        if dots.get(d, 0) >= 2:
+            ctx.count('layerings_adjacent_dot_files_in_%s_directory' % ('first' if pos == 0 else 'last' if pos == len(real) - 1 else 'middle'))
+    if twin:
+        ctx.count('layerings_dot_file_beside_same_named_regular_file')
+    if any(len(v) >= 2 for v in subs.values()):
+        ctx.count('layerings_several_subdirectories_in_one_directory')
+    if dotsubs:
+        ctx.count('layerings_dot_named_subdirectory_with_files')
+    if any(op['lid'].rsplit('/', 1)[-1].startswith('.') for step in case.get('history') or () for op in step['ops']):
+        ctx.count('histories_with_dot_file_appearing_or_disappearing')
+
+
 def check_layering(ctx, case):
     """case: names, dirs (configured order), layers: list of [lid, relpath|None, {name: True}], fmts, write_order;
-    optional: rewrite, history (list of steps {ops: [{op, lid, path, defs: {name: version}|None, fmt}], load}), cwd (decoy kind)"""
+    optional: rewrite, history (list of steps {ops: [{op, lid, path, defs: {name: version}|None, fmt}], load}), cwd (decoy kind),
+    ignored (list of {path, role, fmt, content}: entries the walk must ignore, written when 'ign:<index>' comes up in write_order)"""
     tree = files.Tree(dirs=())
     try:
         _check_layering(ctx, case, tree)
@@ -157,8 +226,15 @@ def _check_layering(ctx, case, tree):
             tree.write('d1/sub/x.yaml', {n: 'role:SUB' for n in names}, 'json')
         content = {l[0]: {n: 'role:' + lid_role(l[0]) for n in l[2]} for l in case['layers']}
         paths = {l[0]: l[1] for l in case['layers']}
+        ign = case.get('ignored') or []
+        ign_by_id = {'ign:%d' % k: e for k, e in enumerate(ign)}
+        ign_roles = {e['role'] for e in ign}
+        if ign:
+            count_ignored(ctx, case)
         for lid in case['write_order']:
-            if paths[lid]:
+            if lid in ign_by_id:
+                write_ignored(tree, names, ign_by_id[lid])
+            elif paths[lid]:
                 tree.write(paths[lid], content[lid], case['fmts'].get(lid, 'json'))
         # expected fold, in the documented order
         eff = {}
@@ -194,7 +270,7 @@ def _check_layering(ctx, case, tree):
                     if st:
                         scoped.add(n)
                     enf.register_default(policy.RuleDefault(n, content['default'][n], scope_types=st))
-        roles = sorted({lid_role(l[0]) for l in case['layers']} | {'SUB', 'nobody'} | ({'CWD'} if case.get('cwd') else set()))
+        roles = sorted({lid_role(l[0]) for l in case['layers']} | {'SUB', 'nobody'} | ({'CWD'} if case.get('cwd') else set()) | ign_roles)
         shadow = any(sum(1 for l in case['layers'] if n in l[2] and not (l[1] and os.path.basename(l[1]).startswith('.'))) > 1
                      for n in names)
         ctx.case(case, nontrivial=shadow, stratum=case['s'])
@@ -208,6 +284,8 @@ def _check_layering(ctx, case, tree):
                     got = 'EXC:' + type(e).__name__
                 want = eff.get(n) == r
                 ctx.count('decisions')
+                if r in ign_roles:
+                    ctx.count('ignored_entry_decisions')
                 if got is True:
                     ctx.count('allow_decisions')
                 if n in scoped:
@@ -230,12 +308,27 @@ def _check_layering(ctx, case, tree):
                         key = 'relative-name-taken-from-working-directory'
                     elif n not in eff:
                         key = 'undefined-name-allowed'
-                    elif r in ('SUB',) or r.endswith('_hidden_yaml'):
+                    elif r in ('SUB',) or r.endswith('_hidden_yaml') or r in ign_roles:
                         key = 'ignored-file-applied'
                     else:
                         key = 'wrong-layer-wins'
-                    ctx.violation(key, case, {'name': n, 'role': r, 'expected_layer': eff.get(n), 'observed': got,
-                                              'layers': {l[0]: sorted(l[2]) for l in case['layers']}})
+                    detail = {'name': n, 'role': r, 'expected_layer': eff.get(n), 'observed': got,
+                              'layers': {l[0]: sorted(l[2]) for l in case['layers']}}
+                    if ign:
+                        # which entry decides instead: the roles that do pass for this name
+                        passing = []
+                        for r2 in roles:
+                            try:
+                                if enf.enforce(n, {}, {'roles': [r2]}) is True:
+                                    passing.append(r2)
+                            except Exception:
+                                pass
+                        detail['roles_that_pass'] = passing
+                        by_role = {e['role']: e['path'] for e in ign}
+                        detail['ignored_entries_applied'] = [by_role[r2] for r2 in passing if r2 in by_role]
+                        if detail['ignored_entries_applied'] and not isinstance(got, str) and r != 'CWD':
+                            key = 'ignored-file-applied' if n in eff else 'undefined-name-allowed'
+                    ctx.violation(key, case, detail)
                     return
         if case.get('rewrite') and not case.get('_second_pass'):
             # an operator re-saves one policy.d file (same content, newer mtime): the long-lived enforcer reloads and must
@@ -262,7 +355,7 @@ def _check_layering(ctx, case, tree):
             pth = {l[0]: l[1] for l in case['layers'] if l[1]}
             # a check string can only stem from content that existed at some time: per name, the roles of every (layer, version)
             # that ever defined it, plus the ignored sub-directory, the decoy and a role nobody uses
-            cand = {n: {'SUB', 'nobody'} | ({'CWD'} if case.get('cwd') else set()) for n in names}
+            cand = {n: {'SUB', 'nobody'} | ({'CWD'} if case.get('cwd') else set()) | ign_roles for n in names}
             for lid, defs in cur.items():
                 for n in defs:
                     cand[n].add(role_of(lid))
@@ -425,6 +518,111 @@ def gen_history(rnd, case):
     return steps
 
 
+# names a directory walk must skip: every one starts with a dot, so in the sorted listing they are neighbours of each other
+DOT_NAMES = ['.a.yaml.swp', '.b.yaml.swp', '..yaml', '.#x.yaml', '.x.yaml~', '.a.yaml', '.b.yaml', '.a.yaml.swo', '.hidden.yaml',
+             '.B.yaml', '.z.json', '.gitkeep', '.~lock.a.yaml#', '.a10.json']
+# regular names (applied, in sorted order): some sort before every dot-file, most after
+# (no two of them equal up to letter case: roles are matched caselessly, and each layer needs a role of its own)
+REGULAR_NAMES = ['-a.yaml', '#b.yaml', 'B.yaml', 'Z.yaml', 'a.yaml', 'a10.json', 'a2.yaml', 'k.yaml', 'm.yaml', 'x.yaml', 'z.json']
+SUBDIR_NAMES = ['.a.yaml.d', '.git', '.sub', '.sub2', 'a.yaml.d', 'c.yaml', 'sub', 'zz']
+SUBDIR_FILES = ['x.yaml', 'a.yaml', '.y.yaml', 'deeper/x.yaml', 'z.json']
+
+
+def _some(rnd, pool, k):
+    """k names of the pool: half of the time a run of neighbours in sorted order, else any k."""
+    pool = sorted(pool)
+    k = min(k, len(pool))
+    if k and rnd.random() < 0.5:
+        at = rnd.randrange(len(pool) - k + 1)
+        return pool[at:at + k]
+    return rnd.sample(pool, k)
+
+
+def gen_ignored_layering(rnd, i):
+    """Stratum I.  The number of dot-files in one focus directory (first / a middle / the last existing one) is enumerated by the
+    index i (0-4, with / without the dot-twin of a regular file); everything else is drawn."""
+    names = ['n1', 'n2', 'n3', 'n4']                  # n4 is defined by ignored entries only
+    dirs = ['d1', 'd2', 'd3']
+    if rnd.random() < 0.3:
+        rnd.shuffle(dirs)
+    focus = dirs[(i // 5) % 3]
+    focus_dots = i % 5
+    want_twin = bool((i // 15) % 2)
+    if rnd.random() < 0.5:
+        dirs.insert(rnd.randrange(len(dirs) + 1), 'dmissing')
+    layers, ignored = [], []
+    for lid, p in (('default', None), ('main', 'policy.yaml')):
+        if rnd.random() < 0.7:
+            layers.append([lid, p, {n: True for n in names[:3] if rnd.random() < 0.5}])
+    for d in dirs:
+        if d == 'dmissing':
+            continue
+        regular = _some(rnd, REGULAR_NAMES, rnd.choice([0, 1, 1, 2, 2, 3]))
+        for fn in regular:
+            layers.append([d + '/' + fn, d + '/' + fn, {n: True for n in names[:3] if rnd.random() < 0.5}])
+        ndots = focus_dots if d == focus else rnd.choice([0, 0, 1, 1, 2, 3, 4])
+        dots = []
+        if regular and ndots and (want_twin if d == focus else rnd.random() < 0.3):
+            dots.append('.' + rnd.choice(regular))
+        dots += _some(rnd, [x for x in DOT_NAMES if x not in dots], ndots - len(dots))
+        for fn in dots:
+            ignored.append({'path': d + '/' + fn})
+        for sd in _some(rnd, [x for x in SUBDIR_NAMES if x not in regular], rnd.choice([0, 0, 1, 2, 2, 3])):
+            inside = rnd.sample(SUBDIR_FILES, rnd.choice([0, 1, 1, 2]))
+            if not inside:
+                ignored.append({'path': d + '/' + sd, 'content': 'dir'})
+            for fn in inside:
+                ignored.append({'path': d + '/' + sd + '/' + fn})
+    for k, e in enumerate(ignored):
+        e['role'] = 'IGN%d' % k
+        e['fmt'] = 'json' if e['path'].endswith('.json') else rnd.choice(['json', 'yaml', 'yaml-lines'])
+        e.setdefault('content', rnd.choice(['policy'] * 8 + ['empty', 'swap']))
+    fmts = {l[0]: ('json' if l[1].endswith('.json') else rnd.choice(['json', 'yaml', 'yaml-lines'])) for l in layers if l[1]}
+    order = [l[0] for l in layers] + ['ign:%d' % k for k in range(len(ignored))]
+    rnd.shuffle(order)
+    case = dict(s='I', names=names, dirs=dirs, layers=layers, fmts=fmts, write_order=order, ignored=ignored,
+                scoped=rnd.random() < 0.3, rewrite=rnd.choice([0, 0, 0, 1, 2, 3]), relative=rnd.random() < 0.3)
+    if case['relative'] and rnd.random() < 0.3:
+        case['cwd'] = rnd.choice(['all', 'missing'])
+    if rnd.random() < 0.3:
+        case['history'] = gen_ignored_history(rnd, case)
+    return case
+
+
+def gen_ignored_history(rnd, case):
+    """A history of stratum H in which, besides the operations on regular files, dot-files appear (defining every name) and
+    disappear in the configured directories before a load - what an editor does when a file is opened and closed."""
+    steps = gen_history(rnd, case) or [{'ops': [], 'load': rnd.choice(['implicit', 'explicit', 'force'])}]
+    real_dirs = [d for d in case['dirs'] if d != 'dmissing']
+    there = sorted(e['path'] for e in case['ignored'] if e['path'].count('/') == 1 and e['content'] != 'dir')
+    ver = 100
+    for step in steps:
+        for _ in range(rnd.choice([0, 1, 1, 2])):
+            busy = {op['path'] for op in step['ops']}
+            if there and rnd.random() < 0.35:
+                p = rnd.choice(there)
+                if p not in busy:
+                    there.remove(p)
+                    step['ops'].append({'op': 'delete', 'lid': p, 'path': p, 'defs': None, 'fmt': None})
+                continue
+            d = rnd.choice(real_dirs)
+            near = [x for x in there if x.startswith(d + '/')]
+            if near and rnd.random() < 0.5:
+                # the neighbour of a dot-file that is already there: .a.yaml.swp -> .a.yaml.swo / .a.yaml.swq
+                p = near[0][:-1] + ('o' if not near[0].endswith('o') else 'q')
+            else:
+                p = d + '/' + rnd.choice(DOT_NAMES)
+            if p in busy:
+                continue
+            ver += 1
+            step['ops'].append({'op': 'add', 'lid': p, 'path': p, 'defs': {n: ver for n in case['names']},
+                                'fmt': 'json' if p.endswith('.json') else rnd.choice(['json', 'yaml', 'yaml-lines'])})
+            if p not in there:
+                there.append(p)
+                there.sort()
+    return [s for s in steps if s['ops']]
+
+
 def exhaustive_layerings():
     slots = [('default', None), ('main', 'policy.yaml'), ('d1/a.yaml', 'd1/a.yaml'), ('d1/b.yaml', 'd1/b.yaml'), ('d2/a.yaml', 'd2/a.yaml')]
     i = 0
@@ -573,6 +771,18 @@ def run(ctx):
         if i % 300 == 0:
             ctx.sample({'layers': {l[0]: sorted(l[2]) for l in case['layers']}, 'formats': case['fmts']}, 'X')
     ctx.stratum('X', exhaustive=done)
+    # I: layerings with many ignored entries (own random source per index: the draws of Y stay what they were)
+    for i in range(N_IGNORED[ctx.tier]):
+        if not ctx.mine(i):
+            continue
+        if ctx.expired():
+            break
+        case = gen_ignored_layering(ctx.sub_rnd('I', ctx.tier, i), i)
+        check_layering(ctx, case)
+        if i % 100 < ctx.nshards:
+            ctx.sample({'layers': {l[0]: sorted(l[2]) for l in case['layers']}, 'dirs': case['dirs'],
+                        'ignored': [e['path'] for e in case['ignored']], 'written_in_order': case['write_order']}, 'I')
+    ctx.stratum('I', exhaustive=False)
     # Y: random layerings
     for i in range(N[ctx.tier] // ctx.nshards + 1):
         if ctx.expired():
